@@ -55,7 +55,7 @@ def run(tier):
     offs = "{0, 1, 2, 3}" if tier == "quick" else "{0, 1, 2, 3, 16, 17}"
     return rel.run_tagged(
         "C08", tier, "GenSort", {"Lims": lims, "Offs": offs}, "sort",
-        dbs_fn=lambda tables, rng: rel.pick_dbs(tables, rng, 8 if tier == "quick" else 14),
+        dbs_fn=lambda tables, rng: rel.pick_dbs(tables, rng, 8 if tier == "quick" else 8),
         cfgs_fn=lambda rng: CFGS,
         extra_items=extra,
         post=lambda rep, run_: scale.run(rep, tier, ["sort", "sort2"], "C08"),
